@@ -139,8 +139,8 @@ PROPS = {
         'coq': 'Props/C12.v',
         'families': [
             {'name': 'tree',
-             'args': {'quick': ['--corpus', 1, '--mutants', 2500, '--lexemes', 1500, '--templates', 3000, '--random', 3000, '--escapes', 4000],
-                      'thorough': ['--corpus', 1, '--mutants', 60000, '--lexemes', 30000, '--templates', 100000, '--random', 80000, '--escapes', 100000]},
+             'args': {'quick': ['--corpus', 1, '--mutants', 2500, '--lexemes', 1500, '--templates', 3000, '--random', 3000, '--escapes', 4000, '--unknown', 4000],
+                      'thorough': ['--corpus', 1, '--mutants', 60000, '--lexemes', 30000, '--templates', 100000, '--random', 80000, '--escapes', 100000, '--unknown', 100000]},
              'shards': {'quick': 16, 'thorough': 16}, 'driver_args': []},
         ],
         'exhaustive': {'quick': False, 'thorough': False},
